@@ -33,7 +33,7 @@ open GtModel GtModel.Xml
 theorem xml_elem_accounts (o : Opts) (orc : Oracle) (fp tp : List Nat) (ftag ttag : Str) (fattr tattr : Tree)
     (ftext ttext : Option Str) (fcs tcs : List XTree) (tbl : List (List XScript)) :
     let s := elemScript (strEdits ftag ttag) (edits o orc fp tp fattr tattr) (textEdit ftext ttext)
-      (kidsIx ftext) (kidsIx ttext) (kidsScript fcs tcs tbl)
+      (kidsIx ftext) (kidsIx ttext) (kidsScript o fcs tcs tbl)
     xfromIdx s.subs = ixRange (XNd.elem (.mk ftag fattr ftext fcs)).children.length ∧
     xtoIdx s.subs = ixRange (XNd.elem (.mk ttag tattr ttext tcs)).children.length :=
   elemScript_idx ftag ttag fattr tattr ftext ttext fcs tcs _ _ (edits_kind_top ..) (kidsScript_top ..)
